@@ -60,16 +60,56 @@ contract(WAV + "._getIndexAtTime", serves=["C16", "C17", "C18"], spec_module="sp
          ensures=[("sample-aligned", "result % self.sampleWidth == 0"),
                   ("nearest-sample", "result == self.sampleWidth * round(startTime * self.frameRate)")])
 
-contract("spec.harness.num_roundtrip", serves=["C01", "C03"], spec_module="spec.scalars", modular=False,
+contract("spec.harness.num_roundtrip", serves=["C01", "C02", "C03"], spec_module="spec.scalars", modular=False,
          inputs=lambda S, cfg: dict(x=S.real("x")),
          requires=["0 <= x", "x <= 1e15"],
          raises={},
          ensures=[("bit-identical-or-near-int", "result == x or (near_int(x) and result == trunc(x))")],
          replay_candidates=[{"x": v} for v in (5e-05, 1e-17, 1e-05, 0.5, 2.0, 2.9999999999999996, 0.30000000000000004)])
 
-contract("spec.harness.num_text_fixed_point", serves=["C01"], spec_module="spec.scalars", modular=False,
+contract("spec.harness.num_text_fixed_point", serves=["C01", "C02"], spec_module="spec.scalars", modular=False,
          inputs=lambda S, cfg: dict(x=S.real("x")),
          requires=["0 <= x", "x <= 1e15"],
          raises={},
          ensures=[("fixed-point", "result[0] == result[1]")],
          replay_candidates=[{"x": v} for v in (5e-05, 1e-17, 0.5, 2.0, 2.9999999999999996, 0.30000000000000004)])
+
+contract("praatio.utilities.my_math.medianFilter", serves=["C20"], spec_module="spec.scalars",
+         configs={"window": [0, 1, 2, 3, 4, 5, 6, 7, 8], "useEdgePadding": [True, False]},
+         inputs=lambda S, cfg: dict(dist=S.list("dist", "real"), window=cfg["window"],
+                                    useEdgePadding=cfg["useEdgePadding"]),
+         spec="spec.scalars.medianFilter",
+         ensures=[("same-length", "len(result) == len(dist)")])
+
+KPT = "praatio.data_classes.klattgrid.KlattPointTier"
+
+contract(KPT + ".modifyValues", serves=["C19"], spec_module="spec.scalars",
+         inputs=lambda S, cfg: dict(self=S.obj(KPT, name=S.str("self.name"), _entries=S.list("self.entries", "pair"),
+                                              minTimestamp=S.real("self.min"), maxTimestamp=S.real("self.max")),
+                                    modFunc=S.func("F")),
+         spec="spec.scalars.KlattPointTier_modifyValues")
+
+contract("praatio.data_classes.klattgrid.toIntOrFloat", serves=["C19"], spec_module="spec.scalars",
+         inputs=lambda S, cfg: dict(val=S.real("val")),
+         requires=["-1e15 <= val", "val <= 1e15"],
+         spec="spec.scalars.toIntOrFloat",
+         ensures=[("same-number", "result == val")])
+
+IO = "praatio.utilities.textgrid_io."
+
+contract(IO + "_removeBlanks", serves=["C03", "C01"], spec_module="spec.scalars",
+         configs={"kind": ["tuple3", "tuple2"]},
+         inputs=lambda S, cfg: dict(tier={"class": "IntervalTier" if cfg["kind"] == "tuple3" else "TextTier",
+                                          "name": S.str("name"), "xmin": S.real("xmin"), "xmax": S.real("xmax"),
+                                          "entries": S.list("entries", cfg["kind"])}),
+         spec="spec.scalars.removeBlanks")
+
+MM = "praatio.utilities.my_math."
+contract(MM + "isclose", serves=["C14", "C01"], spec_module="spec.scalars",
+         inputs=lambda S, cfg: dict(a=S.real("a"), b=S.real("b")), spec="spec.scalars.isclose")
+
+contract(MM + "lessThanOrEqual", serves=["C14"], spec_module="spec.scalars",
+         inputs=lambda S, cfg: dict(a=S.real("a"), b=S.real("b")),
+         requires=["0 <= a", "0 < b", "b <= 1e15"],
+         ensures=[("moves-if-within", "(not (a <= b)) or result"),
+                  ("untouched-beyond", "(not (a > b * (1 + 2e-14))) or (not result)")])
